@@ -141,7 +141,14 @@ def replay_arm(ctx, binp):
         for c in cases:
             f.write(json.dumps(dict(id=c['id'], txt=c['txt'])) + '\n')
     opath = os.path.join(ctx.build, 'results.ndjson')
-    ctx.run([binp, 'replay', cpath, opath, '1000'], check=True, timeout=3000)
+    r = ctx.run([binp, 'replay', cpath, opath, '1000'], timeout=3000)
+    if r.returncode == 4:
+        hang_in_replay(ctx, binp, cases, r.stderr)
+        return
+    if r.returncode != 0:
+        import sys
+        sys.stderr.write(r.stderr[-3000:])
+        raise Inconclusive('replay harness failed rc=%d' % r.returncode)
     outs = vlib.read_ndjson(opath)
     if len(outs) != len(cases):
         raise Inconclusive('replay returned %d results for %d cases' % (len(outs), len(cases)))
@@ -170,6 +177,40 @@ def replay_arm(ctx, binp):
         ctx.sample(dict(kind='program emitted by TLC, evaluated by fq', txt=cases[i]['txt'], predicted=short(cases[i]['pred']), fq=short(outs[i]['got'])))
 
 
+def hangs_alone(ctx, binp, txt, secs=20):
+    """re-run one program alone, twice; True only if fq fails to return both times"""
+    for _ in range(2):
+        r = ctx.run([binp, 'one', txt], timeout=secs + 30, env={'C09_HANG_S': str(secs)})
+        if r.returncode != 4:
+            return False
+    return True
+
+
+def hang_in_replay(ctx, binp, cases, stderr):
+    m = re.search(r'HANGCHUNK (\d+) (\d+)', stderr)
+    if not m:
+        raise Inconclusive('replay harness reported a hang without naming the chunk')
+    lo, hi = int(m.group(1)), int(m.group(2))
+    chunk = cases[lo:hi + 1]
+    vlib.log('fq did not return on programs %d..%d; bisecting' % (lo, hi))
+    # bisect with the harness itself (short deadline), then confirm the single program alone
+    while len(chunk) > 1:
+        half = chunk[:len(chunk) // 2]
+        p = os.path.join(ctx.build, 'hang_cases.ndjson')
+        with open(p, 'w') as f:
+            for c in half:
+                f.write(json.dumps(dict(id=c['id'], txt=c['txt'])) + '\n')
+        r = ctx.run([binp, 'replay', p, p + '.out', '1000'], timeout=120, env={'C09_HANG_S': '20'})
+        chunk = half if r.returncode == 4 else chunk[len(chunk) // 2:]
+    c = chunk[0]
+    if hangs_alone(ctx, binp, c['txt']):
+        ctx.finding('binary.hang.' + root_op(c['txt']), 'fq -n %r does not return (model: %s)' % (c['txt'], short(c['pred'])),
+                    dict(txt=c['txt'], pred=c['pred'], got=dict(t='hang'), run=c['run']))
+        ctx.cov['replay_aborted_by_hang'] = True
+    else:
+        raise Inconclusive('a chunk of programs stalled once but no single program of it stalls alone')
+
+
 def short(v):
     s = json.dumps(v, separators=(',', ':'))
     return s if len(s) <= 300 else s[:300] + '...'
@@ -179,14 +220,34 @@ def tv_arm(ctx, binp):
     thorough = ctx.tier == 'thorough'
     ntrees = 30000 if thorough else 3000
     evp = os.path.join(ctx.build, 'events_raw.ndjson')
-    ctx.run([binp, 'rand', str(ntrees), evp], check=True, timeout=3000)
+    r = ctx.run([binp, 'rand', str(ntrees), evp], timeout=3000)
+    if r.returncode not in (0, 4):
+        import sys
+        sys.stderr.write(r.stderr[-3000:])
+        raise Inconclusive('random driver failed rc=%d' % r.returncode)
     raw = vlib.read_ndjson(evp)
+    if r.returncode == 4:
+        # fq did not return on one chunk of trees: find the tree(s) that stall alone; the events before the chunk are still validated
+        stuck = [e for e in raw if e['o']['op'] == 'hangchunk']
+        raw = [e for e in raw if e['o']['op'] != 'hangchunk']
+        found = 0
+        for e in stuck:
+            rr = ctx.run([binp, 'one', e['txt']], timeout=60, env={'C09_HANG_S': '10'})
+            if rr.returncode == 4 and hangs_alone(ctx, binp, e['txt']):
+                found += 1
+                ctx.finding('binary.hang.tree', 'fq -n %r does not return' % e['txt'][:400], dict(txt=e['txt']))
+                if found >= 3:
+                    break
+        if not found:
+            raise Inconclusive('random driver stalled once but no tree of the chunk stalls alone')
     events = []
     for e in raw:
         if e['o']['op'] == 'anomaly':
             ctx.finding('binary.no_output', 'expression produced neither a value nor an error: fq -n %r' % e.get('txt', '')[:400], e)
             continue
         events.append(e)
+    if r.returncode == 4 and len(events) < 100:
+        return
     if len(events) < ntrees // 2:
         raise Inconclusive('random driver produced too few events (%d)' % len(events))
     allp = os.path.join(ctx.build, 'events.ndjson')
